@@ -259,19 +259,36 @@ def opParse (j : Json) : R Json := do
   match j.getObjVal? "docs" with
   | .ok ds =>
     -- one parser given several documents one after the other (`PState.nextDoc` in between)
+    let regOf (rj : Json) : R Registry := do
+      pure { typeH := ← (← fldArr rj "typeH").mapM (pairOf str natList)
+             srcH := ← (← fldArr rj "srcH").mapM (pairOf str natList)
+             reMatch := ← (← fldArr rj "matches").mapM (pairOf str str)
+             overridden := ← fldBool rj "overridden"
+             validate := ← fldBool rj "validate" }
+    -- every document may come with the handlers registered by then (registrations between the documents)
     let docs ← (← arr ds).mapM fun d => do
-      pure ((← (← fldArr d "items").mapM itemOf), (← fldBool d "versionOk"))
-    let rec go (s : PState) (first : Bool) : List (List Item × Bool) → List Json
+      let r : Registry ← match d.getObjVal? "reg" with
+        | .ok rj => regOf rj
+        | .error _ => pure reg
+      pure ((← (← fldArr d "items").mapM itemOf), (← fldBool d "versionOk"), r)
+    let rec go (s : PState) (first : Bool) : List (List Item × Bool × Registry) → List Json
       | [] => []
-      | (items, vOk) :: rest =>
+      | (items, vOk, r) :: rest =>
         let s0 := if first then s else s.nextDoc
         let from_ := s0.log.length
-        let (s1, e) := prun reg { s0 with sizes := [] } items
+        let (s1, e) := prun r { s0 with sizes := [] } items
         let e := match e with
           | none => if vOk then none else some PErr.validation
           | some x => some x
         view s1 e from_ :: (match e with | none => go s1 false rest | some _ => [])
     pure (Json.mkObj [("docs", Json.arr (go {} true docs).toArray)])
+  | .error _ =>
+  match j.getObjVal? "resilient" with
+  | .ok items =>
+    -- a push parser that is fed on after refused events
+    let its ← (← arr items).mapM itemOf
+    let (s, errs) := prunResilient reg {} its
+    pure (Json.mkObj [("view", view s none 0), ("errors", Json.arr (errs.map fun e => perrJson (some e)).toArray)])
   | .error _ =>
   let chunks ← (← fldArr j "chunks").mapM fun c => do (← arr c).mapM itemOf
   let rootEnd ← fldBool j "rootEnd"
